@@ -1192,7 +1192,14 @@ func c12DeepNest(r *Run) {
 				if len(head) > 600 {
 					head = head[:600]
 				}
-				r.Violate(fmt.Sprintf("deep-nesting kind=%s at=%d:%s", kind, d, result),
+				// the recorded finding F-deep-nesting is the stack overflow of the recursive parser at depths of 50000 and
+				// more (about 14 KB per level against the runtime's 1 GB); anything else — an overflow at a smaller
+				// depth, a panic, a rejection, a timeout — has a signature of its own
+				class := fmt.Sprintf("at=%d:%s", d, result)
+				if result == "fatal-stack-overflow" && d >= 50000 {
+					class = "stack-overflow-beyond-50000-levels"
+				}
+				r.Violate(fmt.Sprintf("deep-nesting kind=%s %s", kind, class),
 					fmt.Sprintf("Parse of %d properly nested and closed %s blocks (%d bytes) did not return a tree: %s", d, kind, d*len("{% if a == 1 %}{% endif %}"), result),
 					map[string]any{"source": fmt.Sprintf("%d x the opening tag of an %s block, then %d x its closing tag", d, kind, d), "depth": d, "result": result, "child_output_head": head,
 						"replay": "harness/vharness --c12-deepnest " + strconv.Itoa(d) + " " + kind})
